@@ -51,7 +51,11 @@ Record lis_gen : Set := {
   g_range_lo : Z;
   g_i_incr : Z -> Z;
   g_best_idx : Z -> Z;
+  g_fast_arg0 : Z;  (* argument order of the fast-path cmp(vs[i], vs[idxOfBestTail]) *)
+  g_fast_arg1 : Z;
   g_fast_cond : Z -> bool;
+  g_clo_arg0 : Z;   (* argument order in the closure cmp(vs[idx], target) *)
+  g_clo_arg1 : Z;
   g_search_hi : Z -> Z;
   g_first_cond : Z -> bool;
   g_neg1 : Z;
@@ -68,7 +72,8 @@ Definition lnds_gen : lis_gen := {|
   g_empty_cond := lnds_empty_cond; g_tails_len0 := lnds_tails_len0; g_prev_len := lnds_prev_len;
   g_prev0_idx := lnds_prev0_idx; g_prev0_val := lnds_prev0_val; g_tails0_idx := lnds_tails0_idx;
   g_tails0_val := lnds_tails0_val; g_range_lo := lnds_range_lo; g_i_incr := lnds_i_incr;
-  g_best_idx := lnds_best_idx; g_fast_cond := lnds_fast_cond; g_search_hi := lnds_search_hi;
+  g_best_idx := lnds_best_idx; g_fast_arg0 := lnds_fast_arg0 0 1; g_fast_arg1 := lnds_fast_arg1 0 1;
+  g_clo_arg0 := lnds_clo_arg0 0 1; g_clo_arg1 := lnds_clo_arg1 0 1; g_fast_cond := lnds_fast_cond; g_search_hi := lnds_search_hi;
   g_first_cond := lnds_first_cond; g_neg1 := lnds_neg1; g_pred_idx := lnds_pred_idx;
   g_repl_idx := lnds_repl_idx; g_ret_len := lnds_ret_len; g_start_idx := lnds_start_idx;
   g_ret_idx := lnds_ret_idx; g_nsearch := lnds_nsearch; g_right := true |}.
@@ -77,7 +82,8 @@ Definition lis_gen_ : lis_gen := {|
   g_empty_cond := lis_empty_cond; g_tails_len0 := lis_tails_len0; g_prev_len := lis_prev_len;
   g_prev0_idx := lis_prev0_idx; g_prev0_val := lis_prev0_val; g_tails0_idx := lis_tails0_idx;
   g_tails0_val := lis_tails0_val; g_range_lo := lis_range_lo; g_i_incr := lis_i_incr;
-  g_best_idx := lis_best_idx; g_fast_cond := lis_fast_cond; g_search_hi := lis_search_hi;
+  g_best_idx := lis_best_idx; g_fast_arg0 := lis_fast_arg0 0 1; g_fast_arg1 := lis_fast_arg1 0 1;
+  g_clo_arg0 := lis_clo_arg0 0 1; g_clo_arg1 := lis_clo_arg1 0 1; g_fast_cond := lis_fast_cond; g_search_hi := lis_search_hi;
   g_first_cond := lis_first_cond; g_neg1 := lis_neg1; g_pred_idx := lis_pred_idx;
   g_repl_idx := lis_repl_idx; g_ret_len := lis_ret_len; g_start_idx := lis_start_idx;
   g_ret_idx := lis_ret_idx; g_nsearch := lis_nsearch; g_right := false |}.
@@ -86,12 +92,22 @@ Section Lis.
   Variable T : Type.
   Variable cmp : T -> T -> Z.
 
+  (* cmp applied to two candidates in the generated argument order (LcsModel.pick2) *)
+  Definition cmp_sel (s0 s1 : Z) (x y : T) : option Z :=
+    match pick2 s0 x y, pick2 s1 x y with
+    | Some a, Some b => Some (cmp a b)
+    | _, _ => None
+    end.
+
   (* the closure func(idx int, target T) int { return cmp(vs[idx], target) } *)
-  Definition key_cmp (vs : list T) (idx : Z) (target : T) : option Z :=
-    match znth vs idx with Some v => Some (cmp v target) | None => None end.
+  Definition key_cmp (g : lis_gen) (vs : list T) (idx : Z) (target : T) : option Z :=
+    match znth vs idx with
+    | Some v => cmp_sel (g_clo_arg0 g) (g_clo_arg1 g) v target
+    | None => None
+    end.
 
   (* bisectRight's loop *)
-  Fixpoint bisect_loop (fuel : nat) (vs : list T) (sub : list Z) (target : T) (low high : Z)
+  Fixpoint bisect_loop (g : lis_gen) (fuel : nat) (vs : list T) (sub : list Z) (target : T) (low high : Z)
     : option Z :=
     match fuel with
     | O => None
@@ -100,10 +116,10 @@ Section Lis.
         let mid := bis_mid low high in
         match znth sub mid with
         | Some idx =>
-          match key_cmp vs idx target with
+          match key_cmp g vs idx target with
           | Some c =>
-            if bis_gt c then bisect_loop fuel' vs sub target low (bis_high_upd mid)
-            else bisect_loop fuel' vs sub target (bis_low_upd mid) high
+            if bis_gt c then bisect_loop g fuel' vs sub target low (bis_high_upd mid)
+            else bisect_loop g fuel' vs sub target (bis_low_upd mid) high
           | None => None
           end
         | None => None
@@ -111,13 +127,13 @@ Section Lis.
       else Some (bis_ret low)
     end.
 
-  Definition bisect_right (vs : list T) (sub : list Z) (target : T) : option Z :=
+  Definition bisect_right (g : lis_gen) (vs : list T) (sub : list Z) (target : T) : option Z :=
     let ln := bis_ln (zlen sub) in
-    bisect_loop (S (length sub)) vs sub target bis_low0 (bis_high0 ln).
+    bisect_loop g (S (length sub)) vs sub target bis_low0 (bis_high0 ln).
 
   (* slices.BinarySearchFunc (first result), go1.23:
        i, j := 0, n; for i < j { h := int(uint(i+j) >> 1); if cmp(x[h], target) < 0 { i = h + 1 } else { j = h } } *)
-  Fixpoint std_binsearch_loop (fuel : nat) (vs : list T) (sub : list Z) (target : T) (i j : Z)
+  Fixpoint std_binsearch_loop (g : lis_gen) (fuel : nat) (vs : list T) (sub : list Z) (target : T) (i j : Z)
     : option Z :=
     match fuel with
     | O => None
@@ -126,10 +142,10 @@ Section Lis.
         let h := Z.shiftr (i + j) 1 in
         match znth sub h with
         | Some idx =>
-          match key_cmp vs idx target with
+          match key_cmp g vs idx target with
           | Some c =>
-            if c <? 0 then std_binsearch_loop fuel' vs sub target (h + 1) j
-            else std_binsearch_loop fuel' vs sub target i h
+            if c <? 0 then std_binsearch_loop g fuel' vs sub target (h + 1) j
+            else std_binsearch_loop g fuel' vs sub target i h
           | None => None
           end
         | None => None
@@ -137,8 +153,8 @@ Section Lis.
       else Some i
     end.
 
-  Definition std_binsearch (vs : list T) (sub : list Z) (target : T) : option Z :=
-    std_binsearch_loop (S (length sub)) vs sub target 0 (zlen sub).
+  Definition std_binsearch (g : lis_gen) (vs : list T) (sub : list Z) (target : T) : option Z :=
+    std_binsearch_loop g (S (length sub)) vs sub target 0 (zlen sub).
 
   (* the standard library's search as seen from LISFunc: the input vs (captured by the closure),
      the searched index slice, the target; None = panic *)
@@ -150,8 +166,8 @@ Section Lis.
   (* an implementation given only by what it does with the comparison results
      [cmp(vs[sub[0]],target); cmp(vs[sub[1]],target); ...] (the closure panics on an index outside
      vs: None) *)
-  Definition std_of (impl : list Z -> option Z) : std_search := fun vs sub target =>
-    match all_some (map (fun idx => key_cmp vs idx target) sub) with
+  Definition std_of (g : lis_gen) (impl : list Z -> option Z) : std_search := fun vs sub target =>
+    match all_some (map (fun idx => key_cmp g vs idx target) sub) with
     | Some ks => impl ks
     | None => None
     end.
@@ -159,7 +175,7 @@ Section Lis.
   Definition search (std : std_search) (g : lis_gen) (vs : list T) (sub : list Z) (target : T)
     : option Z :=
     if g_nsearch g =? 1 then
-      if g_right g then bisect_right vs sub target else std vs sub target
+      if g_right g then bisect_right g vs sub target else std vs sub target
     else None.
 
   (* one iteration of the main loop; [i0] is the range index (before i++) *)
@@ -171,7 +187,10 @@ Section Lis.
     | Some best =>
       match znth vs i, znth vs best with
       | Some vi, Some vb =>
-        if g_fast_cond g (cmp vi vb) then
+        match cmp_sel (g_fast_arg0 g) (g_fast_arg1 g) vi vb with
+        | None => None
+        | Some c =>
+        if g_fast_cond g c then
           (* prev[i] = idxOfBestTail; tails = append(tails, i) *)
           match zupd prev i best with
           | Some prev' => Some (tails ++ [i], prev')
@@ -200,6 +219,7 @@ Section Lis.
             end
           | None => None
           end
+        end
       | _, _ => None
       end
     | None => None
@@ -276,9 +296,9 @@ Section Lis.
       end.
 
   Definition lnds_func (vs : list T) : option (list T) := run_func no_std lnds_gen vs.
-  Definition lis_func (vs : list T) : option (list T) := run_func std_binsearch lis_gen_ vs.
+  Definition lis_func (vs : list T) : option (list T) := run_func (std_binsearch lis_gen_) lis_gen_ vs.
 
   (* LISFunc over any implementation of the standard search *)
   Definition lis_func_std (impl : list Z -> option Z) (vs : list T) : option (list T) :=
-    run_func (std_of impl) lis_gen_ vs.
+    run_func (std_of lis_gen_ impl) lis_gen_ vs.
 End Lis.
